@@ -281,8 +281,8 @@ def wide_ddl_phase(chk):
     once the index B-tree has more than one leaf, and after a reopen"""
     import widetable
     thorough = chk.tier == "thorough"
-    dh = widetable.walks(chk, 120 if thorough else 30, 20 if thorough else 10, n=1000, ddl=True)
-    probs, st = widetable.judge(dh, widetable.execute(dh, n=1000, ddl=True), n=1000)
+    dh = widetable.walks(chk, 30 if thorough else 1, 14 if thorough else 8, n=700, ddl=True, cap=600 if thorough else 60)
+    probs, st = widetable.judge(dh, widetable.execute(dh, n=700, ddl=True), n=700)
     late = sum(1 for h in dh for x in h if x["op"]["k"] == "create_index" and x["probes"]["count"] >= 100)
     if not late:
         raise vlib.ToolError("no WideTable walk created an index on a table of 100 rows or more")
@@ -291,8 +291,8 @@ def wide_ddl_phase(chk):
         ddl_before = [x["op"]["k"] for x in h if x["op"]["k"] in ("create_index", "drop_index")]
         if not ddl_before:
             continue       # nothing DDL has happened yet: C05 / C10 territory
-        if kind == "model" and h[-1]["op"]["k"] not in ("create_index", "drop_index"):
-            continue       # a DML statement's own result: C05
+        if kind == "model" and (h[-1]["op"]["k"] not in ("create_index", "drop_index") or d["what"] == "predicate_over_out_of_line_value"):
+            continue       # a DML statement's own result, expressions over out-of-line values: C05
         sig = "wide_ddl:%s:%s:after_%s" % (d["what"], h[-1]["op"]["k"], ddl_before[-1])
         sigs[sig] = sigs.get(sig, 0) + 1
         chk.classify(sig, {"behaviour": widetable.describe(h), "wide_hist": h, "wide_ddl": True, "detail": d})
@@ -308,12 +308,12 @@ def replay(chk, path):
         import widetable
         vlib.build_harness()
         h = rep["wide_hist"]
-        probs, st = widetable.judge([h], widetable.execute([h], n=1000, ddl=True), n=1000)
+        probs, st = widetable.judge([h], widetable.execute([h], n=700, ddl=True), n=700)
         print("replayed:", widetable.describe(h))
         for hp, k, d in probs:
             print("  %s after step %d: %s" % (k, len(hp), json.dumps(d)[:300]))
             ddl_before = [x["op"]["k"] for x in hp if x["op"]["k"] in ("create_index", "drop_index")]
-            if ddl_before and not (k == "model" and hp[-1]["op"]["k"] not in ("create_index", "drop_index")):
+            if ddl_before and not (k == "model" and (hp[-1]["op"]["k"] not in ("create_index", "drop_index") or d["what"] == "predicate_over_out_of_line_value")):
                 chk.classify("wide_ddl:%s:%s:after_%s" % (d["what"], hp[-1]["op"]["k"], ddl_before[-1]), {"behaviour": widetable.describe(hp), "wide_hist": hp, "wide_ddl": True, "detail": d})
         chk.cov = {"states": 1, "transitions": len(h), "traces_validated_against_impl": 1, "samples": [widetable.describe(h)], "replay_of": path}
         return chk.finish()
